@@ -1,6 +1,6 @@
 (* Property C01 — CQL value encoding conforms to the protocol and round-trips.
-   Statements only.  Every theorem is closed by [exact] of a lemma from Proofs/Cql_proofs.v or
-   Proofs/Vint_proofs.v (the *_refuted ones by computation on a witness); the statements are
+   Statements only.  Every theorem is closed by [exact] of a lemma from Proofs/Cql_proofs.v,
+   Proofs/CqlTyped_proofs.v, Proofs/C01_round4_proofs.v or Proofs/Vint_proofs.v (the *_refuted ones by computation on a witness); the statements are
    pinned again in /verif/pins/C01.v.
 
    Vocabulary (Model/Cql.v):  ser_cell / ser_value = the code's serialiser (serialize_cql_value +
@@ -9,7 +9,7 @@
    what a round trip must return, wf / wf_cell = "a value of the type", size_only = "refused only
    because a length exceeds i32", vector_hole / empty_tuple_inside / known_class = the two known
    finding classes (F2 vector-null-element, F14 empty-tuple). *)
-From SV Require Import Base.Prelude Base.Bytes Model.Vint Model.Cql Model.CqlTyped Proofs.Vint_proofs Proofs.Cql_proofs Proofs.CqlTyped_proofs.
+From SV Require Import Base.Prelude Base.Bytes Model.Vint Model.Cql Model.CqlTyped Proofs.Vint_proofs Proofs.Cql_proofs Proofs.CqlTyped_proofs Proofs.C01_round4_proofs.
 Open Scope N_scope.
 
 (* ---------------------------------------------------------------------------------------- *)
@@ -515,6 +515,95 @@ Example C01_ex_plain :
   min_twos 0 = [0] /\ min_twos (-1) = [255] /\ min_twos (2 ^ 63) = [0; 128; 0; 0; 0; 0; 0; 0; 0].
 Proof. repeat split; vm_compute; reflexivity. Qed.
 
+(* ---------------------------------------------------------------------------------------- *)
+(* Deepening round 4: the boolean predicates the driver decides verdicts with               *)
+(* ---------------------------------------------------------------------------------------- *)
+
+(* conforms_ok (the predicate the driver evaluates on the IMPLEMENTATION's bytes when they differ
+   from the model's) decides EncCell exactly; and on the model's own output it holds whenever
+   C01_cell_conforms applies, so an `ok` (bytes equal to the model's) on a value of the type
+   without a vector hole is a conforming output *)
+Theorem C01_conforms_ok_iff : forall t c b, conforms_ok t c b = true <-> EncCell t c b.
+Proof. exact conforms_ok_iff. Qed.
+
+Theorem C01_conforms_ok_model : forall t c b,
+  wf_cell t c = true ->
+  match c with CVal v => vector_hole t v = false | _ => True end ->
+  ser_cell t c = Ok b -> conforms_ok t c b = true.
+Proof. exact conforms_ok_model. Qed.
+
+(* the driver's premise test for kind Q (`wf_type e && for_all (cell_okb e) cells`) is exactly the
+   premise of the _sequence_cells theorems, so both conclusions hold whenever the test passes *)
+Theorem C01_cells_okb_iff : forall e cs, forallb (cell_okb e) cs = true <-> Forall (cell_ok e) cs.
+Proof. exact cells_okb_iff. Qed.
+
+Theorem C01_sequence_cells_decided : forall e cs b,
+  wf_type e = true -> forallb (cell_okb e) cs = true -> ser_sequence_cells e cs = Ok b ->
+  enc_seq_cells_spec e cs = Some b /\
+  exists body, b = framed body /\ blen body <= i32_max /\
+               deser_listlike_cells e body = Ok (map (pad_cell e) cs).
+Proof. exact sequence_cells_decided. Qed.
+
+(* the class the driver tags with: None exactly outside known_class (the premise of C01_roundtrip),
+   A exactly on a vector hole (the premise of C01_conforms), B exactly on an empty tuple without one *)
+Theorem C01_known_class_of_char : forall t v,
+  (known_class_of t v = None <-> known_class t v = false) /\
+  (known_class_of t v = Some KA_vector_null_element <-> vector_hole t v = true) /\
+  (known_class_of t v = Some KB_empty_tuple <-> vector_hole t v = false /\ empty_tuple_inside t v = true).
+Proof. exact known_class_of_char. Qed.
+
+(* kind V: when cells_hole is false the cells are all values, none of them Empty, and the typed
+   carrier writes exactly what the dynamic vector value writes (the driver then judges the case as
+   that value, full property); cells_hole = true is exactly "some element is null / not set / Empty" *)
+Theorem C01_cells_hole_char : forall cs,
+  cells_hole cs = false <-> exists vs, cs = map CVal vs /\ ~ In CEmpty vs.
+Proof. exact cells_hole_char. Qed.
+
+Theorem C01_vector_cells_no_hole : forall e d cs,
+  cells_hole cs = false ->
+  exists vs, cs = map CVal vs /\ ~ In CEmpty vs /\
+             ser_vector_cells e d cs = ser_cell (TVector e d) (CVal (CVector vs)).
+Proof. exact vector_cells_no_hole. Qed.
+
+(* the signed vint the driver compares kind N with (spec_vint) is what the model's encoder writes *)
+Theorem C01_vint_signed_conforms : forall z, (- 2 ^ 63 <= z < 2 ^ 63)%Z -> vint_encode z = spec_vint z.
+Proof. exact vint_encode_spec. Qed.
+
+(* non-vacuity of the round-4 implications: a map with a null-padded tuple inside (conforms_ok on
+   the model's output), a Vec<Option<i32>> with a null and a not-set element bound to a list, a
+   hole-free Vec bound to a vector *)
+Example C01_ex_round4 :
+  let t := TMap (TNative NInt) (TTuple [TNative NText; TNative NInt]) in
+  let c := CVal (CMap [(CInt 1, CTuple [Some (CText [97])])]) in
+  wf_cell t c = true /\ vector_hole t (CMap [(CInt 1, CTuple [Some (CText [97])])]) = false /\
+  (exists b, ser_cell t c = Ok b /\ conforms_ok t c b = true) /\
+  conforms_ok t c [0;0;0;4; 0;0;0;0] = false /\
+  wf_type (TNative NInt) = true /\
+  forallb (cell_okb (TNative NInt)) [CVal (CInt 7); CNull; CUnset] = true /\
+  ser_sequence_cells (TNative NInt) [CVal (CInt 7); CNull; CUnset]
+    = Ok [0;0;0;20; 0;0;0;3; 0;0;0;4; 0;0;0;7; 255;255;255;255; 255;255;255;254] /\
+  forallb (cell_okb (TNative NAscii)) [CVal (CAscii [200])] = false /\
+  cells_hole [CVal (CInt 7); CVal (CInt 8)] = false /\
+  ser_vector_cells (TNative NInt) 2 [CVal (CInt 7); CVal (CInt 8)] = Ok [0;0;0;8; 0;0;0;7; 0;0;0;8] /\
+  vint_encode (-300) = spec_vint (-300) /\ spec_vint (-300) = [130; 87].
+Proof. cbv zeta. repeat split; try (eexists; split); vm_compute; reflexivity. Qed.
+
+(* of_cell, with which the driver rebuilds the model's carrier value from the cell printed on a T / E
+   case line, inverts embed: for a plain carrier and a cell in padded form (pad_cell t c = c: what a
+   round trip through the carrier returns) it yields the very carrier value that embeds into it *)
+Theorem C01_of_cell_embed : forall k, plain k = true -> forall t v c,
+  typed_check k t = true -> embed k t v = Some c -> pad_cell t c = c -> of_cell k t c = Some v.
+Proof. exact of_cell_embed. Qed.
+
+Example C01_ex_of_cell :
+  let k := KOption (KTuple [KLeaf LI32; KOption (KLeaf LString)]) in
+  let t := TTuple [TNative NInt; TNative NText] in
+  let v := TSome (TTup [TInt 1; TNone]) in
+  let c := CVal (CTuple [Some (CInt 1); None]) in
+  plain k = true /\ typed_check k t = true /\ embed k t v = Some c /\ pad_cell t c = c /\ of_cell k t c = Some v /\
+  embed k t TNone = Some CNull /\ of_cell k t CNull = Some TNone.
+Proof. cbv zeta. repeat split; vm_compute; reflexivity. Qed.
+
 Print Assumptions C01_roundtrip.
 Print Assumptions C01_roundtrip_value.
 Print Assumptions C01_roundtrip_value_sized.
@@ -556,3 +645,12 @@ Print Assumptions C01_vint_signed_roundtrip.
 Print Assumptions C01_vint_len.
 Print Assumptions C01_vint_conforms.
 Print Assumptions C01_zigzag.
+Print Assumptions C01_conforms_ok_iff.
+Print Assumptions C01_conforms_ok_model.
+Print Assumptions C01_cells_okb_iff.
+Print Assumptions C01_sequence_cells_decided.
+Print Assumptions C01_known_class_of_char.
+Print Assumptions C01_cells_hole_char.
+Print Assumptions C01_vector_cells_no_hole.
+Print Assumptions C01_vint_signed_conforms.
+Print Assumptions C01_of_cell_embed.
